@@ -86,6 +86,15 @@ Map4(t, c)    == IF c < 0 \/ c > 65535 THEN 0 ELSE Map4With(t, c, FindSeg4(t.seg
 Map4Lin(t, c) == IF c < 0 \/ c > 65535 THEN 0 ELSE Map4With(t, c, FindSeg4Lin(t.segs, c))
 Covered4(t) == UNION {t.segs[i].s .. t.segs[i].e : i \in 1 .. Len(t.segs)}
 
+\* Dev_UnsortedAny (format 4): OpenType requires the segments sorted by endCode and disjoint.  On a
+\* table that is not, readers differ (first segment in table order - allsorts; binary search -
+\* FreeType, HarfBuzz).  A code that lies in several segments may get the glyph of any segment
+\* that contains it, or what the binary search of this specification yields.
+Holders4(t, c) == {i \in 1 .. Len(t.segs) : t.segs[i].s <= c /\ c <= t.segs[i].e}
+Dev_UnsortedAny4(t, c) ==
+  IF c < 0 \/ c > 65535 THEN {0}
+  ELSE {Map4(t, c)} \cup {Seg4Glyph(t, i, c) : i \in Holders4(t, c)}
+
 ---------------------------------------------------------------------------
 \* Format 12: segmented coverage.
 RECURSIVE FindGrp(_, _, _, _)
@@ -108,6 +117,10 @@ Map12With(t, c, i) ==
 Map12(t, c)    == Map12With(t, c, FindGrp(t.groups, c, 1, Len(t.groups)))
 Map12Lin(t, c) == Map12With(t, c, FindGrpLin(t.groups, c))
 Covered12(t) == UNION {t.groups[i].s .. t.groups[i].e : i \in 1 .. Len(t.groups)}
+
+\* Dev_UnsortedAny (format 12): as for format 4, for group lists that are not sorted / overlap.
+Holders12(t, c) == {i \in 1 .. Len(t.groups) : t.groups[i].s <= c /\ c <= t.groups[i].e}
+Dev_UnsortedAny12(t, c) == {Map12(t, c)} \cup {Map12With(t, c, i) : i \in Holders12(t, c)}
 
 ---------------------------------------------------------------------------
 \* Format 2: high-byte mapping through table (mixed 8/16-bit encodings such as Big5).
@@ -186,11 +199,29 @@ Accept(t, c) ==
 \* to glyph 0, so both are accepted there.
 AcceptSub(t, c) == Accept(t, c) \cup (IF t.fmt = 4 /\ c > 65535 THEN {ERR} ELSE {})
 
+\* Tables whose segments / groups are unsorted or overlap (see Dev_UnsortedAny).  On sorted tables
+\* AcceptU = Accept (design invariant UnsortedIsConservative).
+TabSorted(t) == CASE t.fmt = 4 -> Sorted4(t.segs) [] t.fmt = 12 -> Sorted12(t.groups) [] OTHER -> TRUE
+AcceptU(t, c) ==
+  CASE t.fmt = 4  -> Dev_UnsortedAny4(t, c)
+    [] t.fmt = 12 -> Dev_UnsortedAny12(t, c)
+    [] OTHER      -> Accept(t, c)
+AcceptSubU(t, c) == AcceptU(t, c) \cup (IF t.fmt = 4 /\ c > 65535 THEN {ERR} ELSE {})
+\* glyphs the segments / groups that contain c assign to it
+HolderGlyphs(t, c) ==
+  CASE t.fmt = 4  -> IF c < 0 \/ c > 65535 THEN {} ELSE {Seg4Glyph(t, i, c) : i \in Holders4(t, c)}
+    [] t.fmt = 12 -> {Map12With(t, c, i) : i \in Holders12(t, c)}
+HolderCount(t, c) ==
+  CASE t.fmt = 4  -> IF c < 0 \/ c > 65535 THEN 0 ELSE Cardinality(Holders4(t, c))
+    [] t.fmt = 12 -> Cardinality(Holders12(t, c))
+UnsortedIsConservative(t, probes) == TabSorted(t) => \A c \in probes : AcceptU(t, c) = Accept(t, c)
+
 Ok(acc, got) == BAD \in acc \/ got \in acc
 
 ---------------------------------------------------------------------------
 \* Encoding records and the preference order ("most capable supported subtable"):
-\* Windows UCS-4, Windows BMP, Unicode full, any Unicode-platform record (first in table order),
+\* Windows UCS-4, Windows BMP, Unicode full, any other Unicode-platform record that is a character
+\* map (first in table order; encoding 5 = Unicode variation sequences, format 14, is not one),
 \* Windows Symbol, Macintosh Roman, Windows Big5.  recs: sequence of [p, e, ...].
 FirstRec(recs, P(_)) ==
   LET S == {i \in 1 .. Len(recs) : P(recs[i])} IN IF S = {} THEN 0 ELSE Min(S)
@@ -199,7 +230,7 @@ PrefList(recs) ==
   << FirstRec(recs, LAMBDA r : r.p = 3 /\ r.e = 10),
      FirstRec(recs, LAMBDA r : r.p = 3 /\ r.e = 1),
      FirstRec(recs, LAMBDA r : r.p = 0 /\ r.e = 4),
-     FirstRec(recs, LAMBDA r : r.p = 0),
+     FirstRec(recs, LAMBDA r : r.p = 0 /\ r.e # 5),
      FirstRec(recs, LAMBDA r : r.p = 3 /\ r.e = 0),
      FirstRec(recs, LAMBDA r : r.p = 1 /\ r.e = 0),
      FirstRec(recs, LAMBDA r : r.p = 3 /\ r.e = 4) >>
@@ -223,6 +254,11 @@ Rank(r) ==
   CASE r.p = 3 /\ r.e = 10 -> 1  [] r.p = 3 /\ r.e = 1 -> 2  [] r.p = 0 /\ r.e = 4 -> 3
     [] r.p = 0 -> 4  [] r.p = 3 /\ r.e = 0 -> 5  [] r.p = 1 /\ r.e = 0 -> 6
     [] r.p = 3 /\ r.e = 4 -> 7  [] OTHER -> 8
+\* Rank by platform/encoding alone is kept as it is for GlyphMap.tla (X06), which excludes the
+\* variation-sequences record itself.  The rank C06 uses: the (0, 5) record (format 14) is not a
+\* character map and is never chosen.
+IsUvsRecord(r) == r.p = 0 /\ r.e = 5
+RankC(r) == IF IsUvsRecord(r) THEN 8 ELSE Rank(r)
 
 ---------------------------------------------------------------------------
 \* Mac OS Roman (Apple's ROMAN.TXT): codes 0..127 are ASCII, 128..255 as below.
@@ -260,9 +296,13 @@ UniToMac(ch)  == (CHOOSE p \in MacRomanPairs : p[2] = ch)[1]
 \* A few Big5 characters (code, Unicode) from the Big5 standard, as fixed points for the dispatch.
 Big5Sample == {<<65, 65>>, <<126, 126>>, <<42606, 22909>>, <<41824, 949>>, <<41283, 12290>>,
                <<42048, 19968>>, <<41280, 12288>>, <<63957, 40856>>, <<66, 66>>}
-Big5SampleChars == {p[2] : p \in Big5Sample}
+\* the Latin-1 characters whose Big5 code has two bytes (section sign, multiplication sign, division
+\* sign, degree sign, plus-minus sign, middle dot); kept apart because CmapSubset.tla builds on Big5Sample
+Big5SampleLatin1 == {<<41393, 167>>, <<41425, 215>>, <<41426, 247>>, <<41560, 176>>, <<41427, 177>>, <<41296, 183>>}
+Big5SampleAll == Big5Sample \cup Big5SampleLatin1
+Big5SampleChars == {p[2] : p \in Big5SampleAll}
 NotBig5Chars    == {2350, 1114111, 196}     \* Devanagari MA, U+10FFFF, A dieresis
-UniToBig5(ch)   == (CHOOSE p \in Big5Sample : p[2] = ch)[1]
+UniToBig5(ch)   == (CHOOSE p \in Big5SampleAll : p[2] = ch)[1]
 
 \* Legacy symbol rule: text uses single bytes (or the PUA image 0xF0xx of them) and byte 0x20
 \* corresponds to OS/2.usFirstCharIndex (0x20 when there is no OS/2 table).
@@ -321,6 +361,13 @@ Branch(t, c) ==
     [] t.fmt = 12 -> IF Map12(t, c) = BAD THEN "f12:bad"
                      ELSE LET i == FindGrp(t.groups, c, 1, Len(t.groups)) IN
                           IF i # 0 /\ t.groups[i].s <= c THEN "f12:in" ELSE "f12:none"
+\* rule names on tables whose segments / groups are unsorted or overlap
+BranchU(t, c) ==
+  IF TabSorted(t) THEN Branch(t, c)
+  ELSE LET n == IF t.fmt = 4 THEN Cardinality(Holders4(t, c)) ELSE Cardinality(Holders12(t, c))
+           f == IF t.fmt = 4 THEN "f4" ELSE "f12" IN
+       IF BAD \in AcceptU(t, c) THEN f \o ":unsorted:bad"
+       ELSE IF n = 0 THEN f \o ":unsorted:none" ELSE IF n = 1 THEN f \o ":unsorted:one" ELSE f \o ":unsorted:multi"
 FontBranch(t, enc, first, ch) ==
   CASE enc = "Unicode"    -> "Unicode:" \o Branch(t, ch)
     [] enc = "Symbol"     -> IF SymbolCode(ch, first) = NoCode THEN "Symbol:nocode"
@@ -354,7 +401,7 @@ ValidBig5Code(b) ==
 Big5Diff(enc, dec) ==
   [encOnly |-> enc \ dec,
    decOnly |-> {p \in dec \ enc : ~(ValidBig5Code(p[1]) /\ p[1] >= 256)},
-   missing |-> {p \in Big5Sample : p \notin enc /\ \E q \in enc \cup dec : q[1] \div 256 = p[1] \div 256}]
+   missing |-> {p \in Big5SampleAll : p \notin enc /\ \E q \in enc \cup dec : q[1] \div 256 = p[1] \div 256}]
 
 ---------------------------------------------------------------------------
 \* Design invariants (checked by MC_Cmap on every generated table).
@@ -373,10 +420,10 @@ GlyphRange(t, probes) == \A c \in probes : Map(t, c) \in {BAD} \cup 0 .. 65535
 \* 4. the preferred record has the best rank, and ranks of supported records are below 8
 PreferenceOrder(recs) ==
   LET k == Preferred(recs) IN
-  IF k = 0 THEN \A i \in 1 .. Len(recs) : Rank(recs[i]) = 8
-  ELSE /\ Rank(recs[k]) < 8
-       /\ \A i \in 1 .. Len(recs) : Rank(recs[k]) <= Rank(recs[i])
-       /\ \A i \in 1 .. (k - 1) : Rank(recs[i]) > Rank(recs[k])
+  IF k = 0 THEN \A i \in 1 .. Len(recs) : RankC(recs[i]) = 8
+  ELSE /\ RankC(recs[k]) < 8
+       /\ \A i \in 1 .. Len(recs) : RankC(recs[k]) <= RankC(recs[i])
+       /\ \A i \in 1 .. (k - 1) : RankC(recs[i]) > RankC(recs[k])
 \* 5. the Mac Roman table is a bijection up to the currency alternative
 MacRomanInverse ==
   /\ \A p \in MacRomanPairs : p[2] \in MacRomanChars
